@@ -24,6 +24,12 @@ def Node.genReg (n : Node) : RegSet :=
      else RegSet.ofList (n.readsFrom.map (·.val)))
     constZeroSet
 
+/-- `Inst::math_op` / `Inst::scalar_op` via the generated tables -/
+def mathOpOf (inst : String) : Option MathOp :=
+  (Gen.mathOp.find? (·.1 == inst)).bind fun p => MathOp.ofName p.2
+def scalarOpOf (inst : String) : Option MathOp :=
+  (Gen.scalarOp.find? (·.1 == inst)).bind fun p => MathOp.ofName p.2
+
 def Node.genMemoryValue : Node → Option (MemLoc × AVal)
   | .csr i _ c rs1 _ => if i.val == "Csrrw" then some (.csr c.val, .rs rs1.val 0#32) else none
   | .csri i _ c imm _ => if i.val == "Csrrwi" then some (.csr c.val, .const imm.val) else none
@@ -44,18 +50,17 @@ def Node.genRegValue (n : Node) : Option (Reg × AVal) :=
           some (rd.val, .const 0#32)
         else none
       else none
-    | .arith _ rd rs1 rs2 _ =>
-      if rs1.val == 0 && rs2.val == 0 then some (rd.val, .const 0#32) else none
+    | .arith i rd rs1 rs2 _ =>
+      if rs1.val == 0 && rs2.val == 0 then
+        -- `self.inst().math_op().map_or(0, |op| op.operate(0, 0))`
+        some (rd.val, .const (match mathOpOf i.val with
+          | some op => operate op 0#32 0#32
+          | none => 0#32))
+      else none
     | _ => none
   match item with
   | some (r, v) => if r == 0 then none else some (r, v)
   | none => none
-
-/-- `Inst::math_op` / `Inst::scalar_op` via the generated tables -/
-def mathOpOf (inst : String) : Option MathOp :=
-  (Gen.mathOp.find? (·.1 == inst)).bind fun p => MathOp.ofName p.2
-def scalarOpOf (inst : String) : Option MathOp :=
-  (Gen.scalarOp.find? (·.1 == inst)).bind fun p => MathOp.ofName p.2
 
 /-! ### the rules -/
 
@@ -129,7 +134,8 @@ def rulePerformMathOps (n : Node) (out inn : AMap Reg) : AMap Reg :=
       | some (.ors r x), some (.const y) =>
         (scalarOpOf n.instName).map fun op => AVal.ors r (operate op x y)
       | some (.const x), some (.ors r y) =>
-        (scalarOpOf n.instName).map fun op => AVal.ors r (operate op x y)
+        -- only addition keeps the base register on the right-hand side
+        ((scalarOpOf n.instName).filter (· == MathOp.add)).map fun op => AVal.ors r (operate op x y)
       | _, _ => none
     match result with
     | some v => AMap.insert out rd.val v
@@ -152,6 +158,18 @@ def ruleKnownValuesToStack (memOut : AMap MemLoc) (inn : AMap Reg) : AMap MemLoc
       | _ => acc
     | _ => acc) memOut
 
+/-- `rule_forget_overwritten_registers` -/
+def ruleForgetOverwritten (cn : CNode) (memOut : AMap MemLoc) : AMap MemLoc :=
+  let n := cn.node
+  let ov0 := n.killReg
+  let ov1 := if n.callsTo.isSome then ov0 ||| returnAddrSet else ov0
+  let ov := match ecallSignature cn with
+    | some (_, rets) => ov1 ||| rets
+    | none => ov1
+  memOut.filter fun p => match p.2 with
+    | .rs r _ => !RegSet.mem ov r
+    | _ => true
+
 /-- `reduce(&=)` over the outs of the visited predecessors; `none` when there is none. -/
 def meetOver {κ : Type} [DecidableEq κ] (ms : List (AMap κ)) : AMap κ :=
   match ms with
@@ -172,6 +190,11 @@ def availNode (g : Cfg) (visited : List Nat) (i : Nat) : Cfg × Bool × Bool :=
     -- out[n]
     let out0 := (RegSet.toList n.killReg).foldl AMap.erase inReg
     let out1 := if n.callsTo.isSome then (RegSet.toList returnAddrSet).foldl AMap.erase out0 else out0
+    -- an environment call overwrites its result registers (signature from the *new* reg-in)
+    let cnIn : CNode := { cn with regIn := inReg }
+    let out1 := match ecallSignature cnIn with
+      | some (_, rets) => (RegSet.toList rets).foldl AMap.erase out1
+      | none => out1
     let out2 := match n.genRegValue with
       | some (r, v) => AMap.insert out1 r v
       | none => out1
@@ -196,7 +219,7 @@ def availNode (g : Cfg) (visited : List Nat) (i : Nat) : Cfg × Bool × Bool :=
     let m4 := zeroConsts mem0 inMem
     let r5 := rulePerformMathOps n r4 inReg
     let m5 := rulePushValueToCsrMemory n m4 r5
-    let m6 := ruleKnownValuesToStack m5 inReg
+    let m6 := ruleForgetOverwritten cnIn (ruleKnownValuesToStack m5 inReg)
     let c3 := !(AMap.sameAs cn.regOut r5)
     let c4 := !(AMap.sameAs cn.memOut m6)
     let g' := g.modify i fun m => { m with regIn := inReg, memIn := inMem, regOut := r5, memOut := m6 }
